@@ -60,6 +60,11 @@ func opChurn() error {
 				h := sr.hashes[len(scn.Par)]
 				_ = inv.AddInvVect(wire.NewInvVect(wire.InvTypeBlock, &h))
 				_ = n.send(inv)
+				// and asks the service for headers (the handler runs on the peer's goroutine and consults the sync manager)
+				gh := wire.NewMsgGetHeaders()
+				g := sr.hashes[0]
+				_ = gh.AddBlockLocatorHash(&g)
+				_ = n.send(gh)
 			}
 		}
 		time.Sleep(2 * time.Millisecond)
